@@ -158,7 +158,9 @@ def _trace(tn, td, sn, pn, ctl, rnd, sub_idx=None, drop=0, sdrop=0):
                 return tuple(a.copy() for a in arrs)
             keep = [i for i in range(len(arrs[0])) if i != d - 1]
             return tuple(a[keep] for a in arrs)
-        st2, s2 = _screen(tn[idx], td[idx], sn[idx], pn[idx], ctl, tmap=wh(scr.treatment_mapping, drop), smap=wh(scr.sample_mapping, sdrop))
+        # arrays sized for the rows they hold (a slice of a file read later is not as wide as the longest name of the whole study)
+        tight = lambda a: np.array(a.tolist(), dtype=str).reshape(a.shape)
+        st2, s2 = _screen(tight(tn[idx]), td[idx], tight(sn[idx]), tight(pn[idx]), ctl, tmap=wh(scr.treatment_mapping, drop), smap=wh(scr.sample_mapping, sdrop))
         t.update({"hassub": True, "sub": [i + 1 for i in idx], "drop": drop, "sdrop": sdrop})
         if st2 == "ok":
             g = got(s2)
